@@ -82,6 +82,19 @@ Proof.
     rewrite IH by discriminate. reflexivity.
 Qed.
 
+Definition dotfree (l : bytes) : Prop := ~ In 46 l.
+
+Lemma existsb_dot l : existsb (fun c => c =? 46) l = false <-> dotfree l.
+Proof.
+  unfold dotfree. induction l as [|c r IH]; cbn [existsb]; [split; auto|].
+  destruct (N.eqb_spec c 46) as [->|Hc]; cbn [orb].
+  - split; [discriminate|]. intros H. exfalso. apply H. left. reflexivity.
+  - rewrite IH. split; intros H; [intros [E|E]; [congruence|auto]|intros E; apply H; right; exact E].
+Qed.
+
+Lemma dotlabels_length labels : S (length (dotlabels labels)) = wire_len labels.
+Proof. induction labels as [|l r IH]; cbn [dotlabels wire_len length]; [reflexivity|]. rewrite app_length. lia. Qed.
+
 Lemma name_of_app start b0 labels : start = length b0 -> forall ba' bs',
   name_of start (mkBuf ba' (b0 ++ dotlabels labels) bs') = dotted labels.
 Proof.
@@ -121,18 +134,19 @@ Lemma dn_loop_safe rec data offset start level :
 Proof.
   intros Hwf Hrec. induction fuel as [|f IH]; intros index buf Ho Hi Hf1 Hf; [lia|].
   cbn [dn_loop]. rewrite idx_ok by exact Hi. cbn [bind].
-  destruct (N.eqb_spec (nth index (arr data) 0) 0) as [|Hb0]; [apply safe_Ok|].
+  destruct (N.eqb_spec (nth index (arr data) 0) 0) as [|Hb0]; [destruct (Nat.ltb _ _); [apply safe_Err|apply safe_Ok]|].
   destruct (N.land (nth index (arr data) 0) 192 =? 192).
   { destruct (Nat.ltb_spec (len data) (index + 2)); [apply safe_Err|].
     unfold wf, cap in Hwf. rewrite be16_at_ok by (unfold cap; lia). cbn [bind].
     destruct (Nat.ltb _ _); [apply safe_Err|].
-    apply safe_bind_ok; [apply Hrec|]. intros; apply safe_Ok. }
+    apply safe_bind_ok; [apply Hrec|]. intros; destruct (Nat.ltb _ _); [apply safe_Err|apply safe_Ok]. }
   destruct (_ =? 64); [apply safe_Err|].
   destruct (_ =? 128); [apply safe_Err|].
   set (index2 := (index + N.to_nat (nth index (arr data) 0%N) + 1)%nat).
   destruct (Nat.ltb_spec 255 (index2 - offset)); [apply safe_Err|].
   destruct (Nat.ltb_spec (len data) index2); [apply safe_Err|].
   unfold wf in Hwf. rewrite sl_ok by (subst index2; lia). cbn [bind].
+  destruct (existsb _ _); [apply safe_Err|].
   destruct (Nat.leb_spec (len data) index2); [apply safe_Err|].
   apply IH; subst index2; try lia.
 Qed.
@@ -193,20 +207,22 @@ Proof. apply view_length. exact Hwf. Qed.
 
 Definition rec_sound (rec : nat -> gobuf -> nat -> res dn_out) : Prop :=
   forall o b l n nx b', rec o b l = Ok (n, nx, b') ->
-    exists labels nx', name_at msg o labels nx' /\ bl b' = bl b ++ dotlabels labels.
+    exists labels nx', name_at msg o labels nx' /\ bl b' = bl b ++ dotlabels labels /\ Forall dotfree labels.
 
 Lemma dn_loop_sound rec offset start level : rec_sound rec ->
   forall fuel index buf name next buf',
     dn_loop rec data offset start level fuel index buf = Ok (name, next, buf') ->
     exists labels, name_at msg index labels next /\ bl buf' = bl buf ++ dotlabels labels /\
-                   name = name_of start buf'.
+                   name = name_of start buf' /\ Forall dotfree labels /\ (length (bl buf') - start <= 254)%nat.
 Proof.
   intros Hrec. induction fuel as [|f IH]; intros index buf name next buf' H; [discriminate|].
   cbn [dn_loop] in H. apply bind_ok_inv in H as (b & Hb & H).
   apply idx_inv in Hb as [Hi Hb]. pose proof (msg_byte index) as Hb256. rewrite <- Hb in Hb256.
   pose proof (msg_nth index Hi) as Hn. rewrite <- Hb in Hn.
   destruct (N.eqb_spec b 0) as [->|Hb0].
-  { inversion H; subst. exists []. split; [constructor; exact Hn|]. split; [symmetry; apply app_nil_r|reflexivity]. }
+  { destruct (Nat.ltb_spec 254 (length (bl buf) - start)); [discriminate|].
+    inversion H; subst. exists []. split; [constructor; exact Hn|]. split; [symmetry; apply app_nil_r|].
+    split; [reflexivity|]. split; [constructor|lia]. }
   destruct (top_spec b Hb256) as (T1 & T2 & T3).
   destruct (N.land b 192 =? 192) eqn:E1.
   { symmetry in T1. apply N.leb_le in T1.
@@ -215,8 +231,9 @@ Proof.
     unfold wf in Hwf. rewrite be16_at_ok in Hw by lia. inversion Hw; subst w; clear Hw.
     destruct (Nat.ltb _ _); [discriminate|].
     apply bind_ok_inv in H as (r & Hr & H). destruct r as [[n nx] b']. cbn [snd] in H.
-    inversion H; subst. apply Hrec in Hr as (labels & nx' & Hna & Hbl).
-    exists labels. split; [|split; [exact Hbl|reflexivity]].
+    destruct (Nat.ltb_spec 254 (length (bl b') - start)); [discriminate|].
+    inversion H; subst. apply Hrec in Hr as (labels & nx' & Hna & Hbl & Hdf).
+    exists labels. split; [|split; [exact Hbl|split; [reflexivity|split; [exact Hdf|lia]]]].
     replace (S (S index)) with (index + 2)%nat by lia.
     rewrite ptr_offset in Hna by (auto using msg_byte).
     eapply NA_ptr with (c2 := nth (index + 1) (arr data) 0); eauto.
@@ -229,9 +246,12 @@ Proof.
   destruct (Nat.ltb_spec (len data) index2) as [|Hi2]; [discriminate|].
   apply bind_ok_inv in H as (lab & Hlab & H).
   apply sl_view in Hlab; [|subst index2; lia|exact Hi2|exact Hwf].
+  destruct (existsb (fun c => c =? 46) (view lab)) eqn:Edot; [discriminate|]. apply existsb_dot in Edot.
   destruct (Nat.leb_spec (len data) index2); [discriminate|].
-  apply IH in H as (labels & Hna & Hbl & Hname).
-  exists (sub msg (S index) (N.to_nat b) :: labels). split; [|split; [|exact Hname]].
+  apply IH in H as (labels & Hna & Hbl & Hname & Hdf & Hlen).
+  rewrite Hlab in Edot. fold msg in Edot.
+  replace (index2 - S index)%nat with (N.to_nat b) in Edot by (subst index2; lia).
+  exists (sub msg (S index) (N.to_nat b) :: labels). split; [|split; [|split; [exact Hname|split; [constructor; auto|exact Hlen]]]].
   - apply NA_label with (c := b); auto; try lia.
     + rewrite msg_length. subst index2. lia.
     + replace (index + 1 + N.to_nat b)%nat with index2 by (subst index2; lia). exact Hna.
@@ -243,7 +263,7 @@ Qed.
 Lemma decodeName_sound_gen lf : forall offset buf level name next buf',
   decodeName lf data offset buf level = Ok (name, next, buf') ->
   exists labels, name_at msg offset labels next /\ bl buf' = bl buf ++ dotlabels labels /\
-                 name = dotted labels.
+                 name = dotted labels /\ Forall dotfree labels /\ (wire_len labels <= 255)%nat.
 Proof.
   induction lf as [|lf IH]; intros offset buf level name next buf' H; [discriminate|].
   cbn [decodeName] in H.
@@ -252,11 +272,13 @@ Proof.
   apply bind_ok_inv in H as (b & Hb & H). apply idx_inv in Hb as [_ Hb].
   pose proof (msg_nth offset Hi) as Hn. rewrite <- Hb in Hn.
   destruct (N.eqb_spec b 0) as [->|Hb0].
-  { inversion H; subst. exists []. split; [constructor; exact Hn|]. split; [symmetry; apply app_nil_r|reflexivity]. }
+  { inversion H; subst. exists []. split; [constructor; exact Hn|]. split; [symmetry; apply app_nil_r|].
+    split; [reflexivity|]. split; [constructor|cbn; lia]. }
   apply dn_loop_sound in H.
-  - destruct H as (labels & Hna & Hbl & Hname). exists labels. split; [exact Hna|]. split; [exact Hbl|].
-    rewrite Hname. eapply name_of_buf; [reflexivity|exact Hbl].
-  - intros o b0 l n nx b' Hr. apply IH in Hr as (labels & Hna & Hbl & _). eauto.
+  - destruct H as (labels & Hna & Hbl & Hname & Hdf & Hlen). exists labels. split; [exact Hna|]. split; [exact Hbl|].
+    split; [rewrite Hname; eapply name_of_buf; [reflexivity|exact Hbl]|]. split; [exact Hdf|].
+    rewrite Hbl, app_length in Hlen. pose proof (dotlabels_length labels). lia.
+  - intros o b0 l n nx b' Hr. apply IH in Hr as (labels & Hna & Hbl & _ & Hdf & _). eauto.
 Qed.
 
 (* ---- completeness ---- *)
@@ -265,23 +287,27 @@ Lemma name_at_d_lt d off labels next : name_at_d msg d off labels next -> (off <
 Proof. intros H; inversion H; subst; match goal with H : nth_error msg off = Some _ |- _ => apply msg_lt in H; tauto end. Qed.
 
 Definition rec_complete (rec : nat -> gobuf -> nat -> res dn_out) (lv : nat) : Prop :=
-  forall d o labels nx b, name_at_d msg d o labels nx -> (lv + d <= 255)%nat -> (wire_len labels <= 256)%nat ->
+  forall d o labels nx b, name_at_d msg d o labels nx -> (lv + d <= 255)%nat -> (wire_len labels <= 255)%nat ->
+    Forall dotfree labels ->
     exists n' b', rec o b lv = Ok (n', nx, b') /\ bl b' = bl b ++ dotlabels labels.
 
 Lemma dn_loop_complete rec start level d index labels next :
   name_at_d msg d index labels next ->
-  (forall d', (S d' <= d)%nat -> rec_complete rec (S level) -> True) ->
   forall offset fuel buf,
     (forall d', d = S d' -> (S level + d' <= 255)%nat) ->
     rec_complete rec (S level) ->
+    Forall dotfree labels ->
+    (start <= length (bl buf))%nat -> (length (bl buf) - start + wire_len labels <= 255)%nat ->
     (offset <= index)%nat -> ((index - offset) + wire_len labels <= 256)%nat ->
     (1 <= fuel)%nat -> (2 * fuel + (index - offset) >= 257)%nat ->
     exists buf', dn_loop rec data offset start level fuel index buf = Ok (name_of start buf', next, buf') /\
                  bl buf' = bl buf ++ dotlabels labels.
 Proof.
-  intros Hna _. induction Hna as [off Hn | d off c labels next Hn Hc1 Hc2 Hlen Hna IH | d off c1 c2 labels next' Hn Hc1 Hn2 Hna IH];
-    intros offset fuel buf Hd Hrec Ho Hw Hf1 Hf; destruct fuel as [|f]; try lia; cbn [dn_loop].
-  - apply msg_lt in Hn as [Hi Hb]. rewrite idx_ok by exact Hi. cbn [bind]. rewrite <- Hb. cbn.
+  intros Hna. induction Hna as [off Hn | d off c labels next Hn Hc1 Hc2 Hlen Hna IH | d off c1 c2 labels next' Hn Hc1 Hn2 Hna IH];
+    intros offset fuel buf Hd Hrec Hdf Hst Htot Ho Hw Hf1 Hf; destruct fuel as [|f]; try lia; cbn [dn_loop].
+  - apply msg_lt in Hn as [Hi Hb]. rewrite idx_ok by exact Hi. cbn [bind]. rewrite <- Hb.
+    replace (0 =? 0) with true by reflexivity. cbn [wire_len] in Htot.
+    destruct (Nat.ltb_spec 254 (length (bl buf) - start)); [lia|].
     exists buf. split; [reflexivity|]. symmetry. apply app_nil_r.
   - apply msg_lt in Hn as [Hi Hb]. rewrite idx_ok by exact Hi. cbn [bind]. rewrite <- Hb.
     destruct (N.eqb_spec c 0); [lia|].
@@ -290,24 +316,26 @@ Proof.
     replace (N.land c 192 =? 192) with false by (rewrite T1; lia).
     replace (N.land c 192 =? 64) with false by (rewrite T2; lia).
     replace (N.land c 192 =? 128) with false by (rewrite T3; lia).
-    rewrite msg_length in Hlen. cbn [wire_len] in Hw.
+    rewrite msg_length in Hlen. cbn [wire_len] in Hw, Htot.
     set (index2 := (off + N.to_nat c + 1)%nat).
     assert (length (sub msg (S off) (N.to_nat c)) = N.to_nat c) as Hsl.
     { apply sub_length. rewrite msg_length. lia. }
-    rewrite Hsl in Hw.
+    rewrite Hsl in Hw, Htot.
     pose proof (name_at_d_lt _ _ _ _ Hna) as Hi2.
     replace (off + 1 + N.to_nat c)%nat with index2 in * by (subst index2; lia).
     destruct (Nat.ltb_spec 255 (index2 - offset)); [subst index2; destruct labels; cbn [wire_len] in Hw; lia|].
     destruct (Nat.ltb_spec (len data) index2); [lia|].
-    unfold wf in Hwf. rewrite sl_ok by (subst index2; lia). cbn [bind].
+    pose proof Hwf as Hwf'. unfold wf in Hwf'. rewrite sl_ok by (subst index2; lia). cbn [bind].
+    pose proof (Forall_inv Hdf) as Hd1. pose proof (Forall_inv_tail Hdf) as Hd2.
+    assert (Hview : view {| arr := skipn (S off) (arr data); len := index2 - S off |} = sub msg (S off) (N.to_nat c)).
+    { unfold view at 1. cbn [arr len]. fold (sub (arr data) (S off) (index2 - S off)).
+      rewrite <- sub_view by (subst index2; lia). fold msg.
+      replace (index2 - S off)%nat with (N.to_nat c) by (subst index2; lia). reflexivity. }
+    rewrite Hview. apply existsb_dot in Hd1. rewrite Hd1.
     destruct (Nat.leb_spec (len data) index2); [lia|].
-    destruct (IH offset f (gappend (gappend buf [DOT])
-               (view {| arr := skipn (S off) (arr data); len := index2 - S off |}))) as (buf' & Hr & Hbl);
-      auto; try (subst index2; lia).
+    destruct (IH offset f (gappend (gappend buf [DOT]) (sub msg (S off) (N.to_nat c)))) as (buf' & Hr & Hbl);
+      auto; try (subst index2; lia); try (rewrite !gappend_bl, !app_length, Hsl; cbn [length]; lia).
     exists buf'. split; [exact Hr|]. rewrite Hbl, !gappend_bl.
-    unfold view at 1. cbn [arr len]. fold (sub (arr data) (S off) (index2 - S off)).
-    rewrite <- sub_view by (subst index2; lia). fold msg.
-    replace (index2 - S off)%nat with (N.to_nat c) by (subst index2; lia).
     cbn [dotlabels]. rewrite <- !app_assoc. reflexivity.
   - apply msg_lt in Hn as [Hi Hb]. apply msg_lt in Hn2 as [Hi2 Hb2].
     rewrite idx_ok by exact Hi. cbn [bind]. rewrite <- Hb.
@@ -316,34 +344,38 @@ Proof.
     destruct (top_spec c1 Hc256) as (T1 & _).
     replace (N.land c1 192 =? 192) with true by (rewrite T1; lia).
     destruct (Nat.ltb_spec (len data) (off + 2)); [lia|].
-    unfold wf in Hwf. rewrite be16_at_ok by lia. cbn [bind].
+    pose proof Hwf as Hwf'. unfold wf in Hwf'. rewrite be16_at_ok by lia. cbn [bind].
     replace (off + 1)%nat with (S off) by lia. rewrite <- Hb, <- Hb2.
     rewrite ptr_offset by (auto; rewrite Hb2; apply msg_byte).
     pose proof (name_at_d_lt _ _ _ _ Hna) as Hip.
     destruct (Nat.ltb_spec (len data) (N.to_nat ((c1 - 192) * 256 + c2))); [lia|].
-    destruct (Hrec d (N.to_nat ((c1 - 192) * 256 + c2)) labels next' buf Hna) as (n' & b' & Hr & Hbl).
-    + specialize (Hd d eq_refl). lia.
-    + lia.
-    + rewrite Hr. cbn [bind snd]. exists b'. split; [|exact Hbl].
-      replace (off + 2)%nat with (S (S off)) by lia. reflexivity.
+    assert (Hlv : (S level + d <= 255)%nat) by (specialize (Hd d eq_refl); lia).
+    assert (Hw255 : (wire_len labels <= 255)%nat) by lia.
+    destruct (Hrec d (N.to_nat ((c1 - 192) * 256 + c2)) labels next' buf Hna Hlv Hw255 Hdf) as (n' & b' & Hr & Hbl).
+    rewrite Hr. cbn [bind snd].
+    assert (length (bl b') - start <= 254)%nat.
+    { rewrite Hbl, app_length. pose proof (dotlabels_length labels). lia. }
+    destruct (Nat.ltb_spec 254 (length (bl b') - start)); [lia|].
+    exists b'. split; [|exact Hbl].
+    replace (off + 2)%nat with (S (S off)) by lia. reflexivity.
 Qed.
 
 Lemma decodeName_complete_gen : forall lf level d offset labels next buf,
   name_at_d msg d offset labels next ->
-  (level + d <= 255)%nat -> (wire_len labels <= 256)%nat ->
+  (level + d <= 255)%nat -> (wire_len labels <= 255)%nat -> Forall dotfree labels ->
   (1 <= lf)%nat -> (lf + level >= 257)%nat ->
   exists buf', decodeName lf data offset buf level = Ok (dotted labels, next, buf') /\
                bl buf' = bl buf ++ dotlabels labels.
 Proof.
-  induction lf as [|lf IH]; intros level d offset labels next buf Hna Hd Hw H1 H2; [lia|].
+  induction lf as [|lf IH]; intros level d offset labels next buf Hna Hd Hw Hdf H1 H2; [lia|].
   cbn [decodeName]. unfold maxRecursionLevel.
   destruct (Nat.ltb_spec 255 level); [lia|].
   pose proof (name_at_d_lt _ _ _ _ Hna) as Hi.
   destruct (Nat.leb_spec (len data) offset); [lia|].
   rewrite idx_ok by exact Hi. cbn [bind].
   assert (Hrec : rec_complete (decodeName lf data) (S level)).
-  { intros d' o ls nx b Hna' Hd' Hw'.
-    destruct (IH (S level) d' o ls nx b Hna' Hd' Hw') as (b' & Hr & Hbl); try lia.
+  { intros d' o ls nx b Hna' Hd' Hw' Hdf'.
+    destruct (IH (S level) d' o ls nx b Hna' Hd' Hw' Hdf') as (b' & Hr & Hbl); try lia.
     eauto. }
   destruct (N.eqb_spec (nth offset (arr data) 0) 0) as [E|E].
   - inversion Hna; subst;
@@ -352,8 +384,8 @@ Proof.
     + lia.
     + lia.
   - assert (Hd' : forall d', d = S d' -> (S level + d' <= 255)%nat) by (intros d' ->; lia).
-    destruct (dn_loop_complete (decodeName lf data) (length (bl buf)) level d offset labels next Hna (fun _ _ _ => I)
-               offset loop_fuel buf Hd' Hrec) as (buf' & Hr & Hbl); try (unfold loop_fuel; lia).
+    destruct (dn_loop_complete (decodeName lf data) (length (bl buf)) level d offset labels next Hna
+               offset loop_fuel buf Hd' Hrec Hdf) as (buf' & Hr & Hbl); try (unfold loop_fuel; lia).
     exists buf'. split; [|exact Hbl]. rewrite Hr. f_equal. f_equal. f_equal.
     eapply name_of_buf; [reflexivity|exact Hbl].
 Qed.
@@ -371,22 +403,34 @@ Theorem name_sound data off buf name next buf' : wf data -> bytes_ok (arr data) 
   decodeName name_fuel data off buf 1 = Ok (name, next, buf') ->
   exists labels, name_at (view data) off labels next /\ name = dotted labels.
 Proof.
-  intros Hwf Hok H. destruct (decodeName_sound_gen data Hwf Hok _ _ _ _ _ _ _ H) as (ls & Hn & _ & Hd).
+  intros Hwf Hok H. destruct (decodeName_sound_gen data Hwf Hok _ _ _ _ _ _ _ H) as (ls & Hn & _ & Hd & _).
+  eauto.
+Qed.
+
+(* and the name it returns is within RFC 1035's 255 octets, with no '.' inside a label *)
+Theorem name_sound_limits data off buf name next buf' : wf data -> bytes_ok (arr data) ->
+  decodeName name_fuel data off buf 1 = Ok (name, next, buf') ->
+  exists labels, name_at (view data) off labels next /\ name = dotted labels /\
+                 Forall dotfree labels /\ (wire_len labels <= 255)%nat.
+Proof.
+  intros Hwf Hok H. destruct (decodeName_sound_gen data Hwf Hok _ _ _ _ _ _ _ H) as (ls & Hn & _ & Hd & Hf & Hw).
   eauto.
 Qed.
 
 Theorem name_complete data d off labels next buf : wf data -> bytes_ok (arr data) ->
-  name_at_d (view data) d off labels next -> (d <= 254)%nat -> (wire_len labels <= 256)%nat ->
+  name_at_d (view data) d off labels next -> (d <= 254)%nat -> (wire_len labels <= 255)%nat ->
+  Forall dotfree labels ->
   exists buf', decodeName name_fuel data off buf 1 = Ok (dotted labels, next, buf').
 Proof.
-  intros Hwf Hok Hn Hd Hw.
-  destruct (decodeName_complete_gen data Hwf Hok name_fuel 1 d off labels next buf Hn) as (b' & H & _);
+  intros Hwf Hok Hn Hd Hw Hdf.
+  destruct (decodeName_complete_gen data Hwf Hok name_fuel 1 d off labels next buf Hn) as (b' & H & _); auto;
     try (unfold name_fuel; lia). eauto.
 Qed.
 
-(* every RFC-valid name (at most 255 octets) compressed with at most 254 pointers is decoded *)
+(* kept under its first name: since the total-length check the decoder's limit IS RFC 1035's 255 octets *)
 Corollary name_complete_rfc data d off labels next buf : wf data -> bytes_ok (arr data) ->
   name_at_d (view data) d off labels next -> (wire_len labels <= 255)%nat -> (d <= 254)%nat ->
+  Forall dotfree labels ->
   exists buf', decodeName name_fuel data off buf 1 = Ok (dotted labels, next, buf').
 Proof. intros. eapply name_complete; eauto. Qed.
 
@@ -423,23 +467,37 @@ Example name_depth_255_rejected :
   decodeName name_fuel data 0 (mkBuf [] [] true) 1 = Err EParseFrame.
 Proof. vm_compute. split; reflexivity. Qed.
 
-(* four labels of 63, 63, 63 and 62 octets: 256 octets on the wire *)
+(* four labels of 63, 63, 63 and [last] octets: 193 + last + 2 octets on the wire *)
 Definition long_name (last : nat) : bytes :=
   (63 :: repeat 97 63) ++ (63 :: repeat 98 63) ++ (63 :: repeat 99 63) ++ (N.of_nat last :: repeat 100 last) ++ [0].
 
-(* the length limit applied by the code is 256, one more than RFC 1035's 255: accepted ... *)
-Example name_wire_256_accepted :
-  let data := of_bytes (long_name 62) in
-  match ref_decode (view data) 0 with Some (ls, _) => wire_len ls | None => 0%nat end = 256%nat /\
+(* the limit is RFC 1035's: 255 octets accepted ... *)
+Example name_wire_255_accepted :
+  let data := of_bytes (long_name 61) in
+  match ref_decode (view data) 0 with Some (ls, _) => wire_len ls | None => 0%nat end = 255%nat /\
   is_ok (decodeName name_fuel data 0 (mkBuf [] [] true) 1) = true.
 Proof. vm_compute. split; reflexivity. Qed.
 
-(* ... and 257 is rejected *)
-Example name_wire_257_rejected :
-  let data := of_bytes (long_name 63) in
-  match ref_decode (view data) 0 with Some (ls, _) => wire_len ls | None => 0%nat end = 257%nat /\
+(* ... 256 rejected, uncompressed ... *)
+Example name_wire_256_rejected :
+  let data := of_bytes (long_name 62) in
+  match ref_decode (view data) 0 with Some (ls, _) => wire_len ls | None => 0%nat end = 256%nat /\
   decodeName name_fuel data 0 (mkBuf [] [] true) 1 = Err EParseFrame.
 Proof. vm_compute. split; reflexivity. Qed.
+
+(* ... and through compression: "\003abc" + pointer to a 253-octet name = 257 octets, every segment short *)
+Example name_wire_compressed_rejected :
+  let data := of_bytes ((63 :: repeat 97 63) ++ (63 :: repeat 98 63) ++ (63 :: repeat 99 63) ++ (59 :: repeat 100 59) ++ [0]
+                        ++ [3; 97; 98; 99; 192; 0]) in
+  match ref_decode (view data) 253 with Some (ls, _) => wire_len ls | None => 0%nat end = 257%nat /\
+  is_ok (decodeName name_fuel data 0 (mkBuf [] [] true) 1) = true /\
+  decodeName name_fuel data 253 (mkBuf [] [] true) 1 = Err EParseFrame.
+Proof. vm_compute. repeat split; reflexivity. Qed.
+
+(* a '.' inside a label is rejected (the dotted rendering could not tell it from a separator) *)
+Example name_dot_in_label_rejected :
+  decodeName name_fuel (of_bytes [3; 52; 46; 51; 1; 50; 0]) 0 (mkBuf [] [] true) 1 = Err EParseFrame.
+Proof. vm_compute. reflexivity. Qed.
 
 (* a compressed name: "\003www" + pointer to "\007example\003com\000" at offset 12 *)
 Example name_compressed_example :
